@@ -663,7 +663,8 @@ def _handle_attribute(node: ast.Attribute, ctx: Context) -> sympy.Expr | None:
         dict(inspect.getmembers(ctx.parent_module, predicate=inspect.ismodule))
         | ctx.modules
     )
-    variables = vars(ctx.parent_module)
+    # objects of an enclosing function (closure) come before the module's globals
+    variables = vars(ctx.parent_module) | _closure_vars(ctx.caller)
 
     match node.value:
         case ast.Name(l1):
